@@ -312,7 +312,11 @@ def _reply_filter(ctx: Context) -> None:
         # (a truncated unwanted item has nothing behind it); whether that arithmetic is right is C15's business
         length_edges = []
         for tn in cfg.nodes:
-            if tn.kind == "test" and any(isinstance(x, ast.Call) and isinstance(x.func, ast.Name) and x.func.id == "len" for x in walk_expr(tn.exprs[0])):
+            if tn.kind != "test":
+                continue
+            # by value: `end = len(data)` held in a local is the same test
+            if any(isinstance(x, ast.Call) and isinstance(x.func, ast.Name) and x.func.id == "len" for x in walk_expr(tn.exprs[0])) or contains(
+                    ctx.terms.of(cfg, tn, tn.exprs[0]), lambda s_: s_[0] == "call" and s_[1] == ("glob", "len")):
                 length_edges += cfg.out_edges(tn, ("T", "F"))
         bad = None
         back = False
